@@ -37,9 +37,13 @@ func vCompactLeader(n int) (*Raft, *leader, *vAbsLog) {
 	return r, l, a
 }
 
-//verif:check C09 stubs=env,valuefile,abslog,snapfs reach=compacted,notified,end desc="Raft.onSnapshotTaken on a leader, then the next update: compaction is bounded by the snapshot index and by every follower's match index, whole segments only; the leader's removeLTE bookkeeping stays at or above the first index so that the views built for replications afterwards exist" bounds="n=2..3 nodes, log of 3 entries in 1..3 segments, symbolic match indexes and reachability, snapshot index anywhere in (old snapshot, applied]"
-func VH_C09_onSnapshotTaken() {
-	n := 2 + vChoice(2)
+//verif:check C09 stubs=env,valuefile,abslog,snapfs reach=compacted,notified,end desc="Raft.onSnapshotTaken on a leader, then the next update: compaction is bounded by the snapshot index and by every follower's match index, whole segments only; the leader's removeLTE bookkeeping stays at or above the first index so that the views built for replications afterwards exist" bounds="n=2 nodes, log of 3 entries in 1..3 segments, symbolic match index and reachability, snapshot index anywhere in (old snapshot, applied]"
+func VH_C09_onSnapshotTaken() { vOnSnapshotTaken(2) }
+
+//verif:check C09 tier=thorough stubs=env,valuefile,abslog,snapfs reach=compacted,notified,end desc="as VH_C09_onSnapshotTaken with two followers" bounds="n=3 nodes"
+func VH_C09_onSnapshotTaken_n3() { vOnSnapshotTaken(3) }
+
+func vOnSnapshotTaken(n int) {
 	r, l, a := vCompactLeader(n)
 	prev0 := a.prev
 	// a snapshot was taken at the FSM's applied index
